@@ -109,7 +109,17 @@ func (g *gen) lbl(pos token.Pos, want string, fallback string) string {
 func (g *gen) execInstr(ins ssa.Instruction, st *State, b *ssa.BasicBlock) {
 	switch x := ins.(type) {
 	case *ssa.Phi:
-		// bound by mergeEdges
+		// bound by mergeEdges. A phi of a lifted local carries the variable's name:
+		// from here on that name means the merged value (there is no DebugRef for it)
+		if x.Comment != "" && x.Comment != "rangeindex" && x.Comment != "rangeiter" {
+			if _, cell := g.varAt["&"+x.Comment]; !cell {
+				g.varAt[x.Comment] = x
+				if g.varAll[x.Comment] == nil {
+					g.varAll[x.Comment] = map[ssa.Value]bool{}
+				}
+				g.varAll[x.Comment][x] = true
+			}
+		}
 	case *ssa.DebugRef:
 		// keep the latest binding of source-level variables for invariants
 		if id, ok := x.Expr.(interface{ String() string }); ok && !x.IsAddr {
